@@ -7,124 +7,293 @@ PROP = 'C14'
 REQUIRES = ['Buffer.Model', 'Buffer.Spec']
 RULE = ('histories of mutations (append n in {1,2,cap,cap+2}; invalidate at {lb-1, lb, mid, ub-1, ub, ub+1, 0}; resize to '
         '{cap-1, cap+1, 2cap+1}) exhaustive up to length 3 (quick: cap 2,3; thorough: length 4, cap 1..4) followed by a boundary-centred read sweep '
-        '(plain, filled incl. entirely-outside requests, latest, None bounds); then seeded random histories up to length 40 (cap up to 12); '
-        '1 and 2 channels; fs in {1, 1000, 195312.5}; buffer and read fill values incl. 0; float and integer-typed chunks; the caller overwrites every array after appending it. Non-trivial: history contains an invalidate or resize, or an append larger '
-        'than the capacity. Distinct = distinct (cap, fs, channels, op list).')
-TRUSTED = ['harness/C14.py (history generator; conversion of sample positions to seconds k/fs and back with the same float '
+        '(plain, filled incl. entirely-outside requests, latest, None bounds, explicit 0 bounds, seconds- and sample-based twins, keyword / default '
+        'forms of every optional argument, direct time_to_samples / time_to_index / samples_to_index queries, a wrongly shaped append that must be refused); '
+        'then seeded random histories up to length 40 (cap up to 12); '
+        'constructor: fs in {1, 1000, 195312.5} as float / int / NumPy scalar, size on and off the sample grid (ceil), fill_value -1 / 0 / default NaN, '
+        'dtype default / float32 / int64 / int32, n_channels None / 1 / 2 / 3; chunks float64 / int64 / float32 / strided view / read-only / Fortran; '
+        'times on and off the sample grid (k+f)/fs, f in {0, .25, .5, .75, -.25, -.5}; sample arguments as Python and NumPy integers; read fill values incl. 0; '
+        'the caller overwrites every array after appending it, overwrites every second array it was handed and keeps the others to compare them, '
+        'unchanged, after all later mutations. Non-trivial: history contains an invalidate or resize, or an append larger '
+        'than the capacity. Distinct = distinct (configuration, op list).')
+TRUSTED = ['harness/C14.py (history generator; conversion of sample positions to seconds (k+f)/fs and back with the same float '
            'expression the code uses; canonicalisation of ndarray rows to integer lists)',
            'NumPy basic slicing / overlapping slice assignment / np.pad as modelled in coq/Common/PySlice.v and coq/Buffer/Model.v']
-ASSUMPTIONS = ['times are passed as k/fs; seconds->samples is round(t*fs) (Common/FloatGrid theorem for the grid round trip)',
+ASSUMPTIONS = ['times are passed as (k+f)/fs; seconds->samples is round(t*fs), evaluated by the harness with the very float expression of the code '
+               '(Common/FloatGrid theorem for the on-grid round trip)',
                'appends have n >= 1, invalidation positions are >= 0, resize targets >= 1 sample',
-               'reads with lb > ub are compared model-vs-code but not judged by the property']
+               'reads with lb > ub are compared model-vs-code but not judged by the property',
+               'an integer-dtype buffer is given an integer fill value (the NaN default cannot be stored in it)']
 FILL = -1
+NANV = -999999          # coq/Buffer/Model.v nanv: how a NaN sample is written in the integer model
+DT = {None: None, 'float32': np.float32, 'int64': np.int64, 'int32': np.int32}
+
+
+def _fs(case):
+    fs = case['fs']
+    kind = case.get('fskind', 'float')
+    if kind == 'int' and float(fs) == int(fs):
+        return int(fs)
+    if kind == 'np64':
+        return np.float64(fs)
+    return fs
+
+
+def _size(case):
+    fs = _fs(case)
+    frac = case.get('sizefrac', 0)
+    if frac == 0 and case.get('intsize') and case['cap'] % int(fs) == 0 and float(fs) == int(fs):
+        return case['cap'] // int(fs)              # a Python int duration
+    return (case['cap'] - frac) / fs
 
 
 def _mk(case):
     from psiaudio.buffer import SignalBuffer
-    fs = case['fs']
-    size = case['cap'] / fs
     ch = case['ch']
-    b = SignalBuffer(fs, size, fill_value=float(case.get('bfill', FILL)), n_channels=(None if ch == 1 else ch))
-    return b
+    kw = {}
+    if case.get('bfill', FILL) is not None:
+        f = case.get('bfill', FILL)
+        kw['fill_value'] = int(f) if case.get('dtype') in ('int64', 'int32') else float(f)
+    if case.get('dtype'):
+        kw['dtype'] = DT[case['dtype']]
+    if ch > 1 or case.get('twod'):
+        kw['n_channels'] = ch
+    elif case.get('nckw'):
+        kw['n_channels'] = None
+    return SignalBuffer(_fs(case), _size(case), **kw)
 
 
 def _eff_cap(case):
-    return int(np.ceil(case['fs'] * (case['cap'] / case['fs'])))
+    return int(np.ceil(_fs(case) * _size(case)))
 
 
-def _row(a, r, ch):
+def _mfill(case):
+    f = case.get('bfill', FILL)
+    return NANV if f is None else f
+
+
+def _row(a, r, ch, twod=False):
     a = np.asarray(a)
-    x = a if ch == 1 else a[r]
+    x = a[r] if (ch > 1 or twod) else a
+    assert x.ndim == 1, a.shape
     out = []
     for v in x:
         if np.isnan(v):
-            out.append(-999999)
+            out.append(NANV)
         else:
             v = float(v)
             # rows are offset by 100000*r so that channels are distinguishable; undo it for the model
             if r > 0 and v >= 100000 * r:
                 v -= 100000 * r
+            assert v == int(v)
             out.append(int(v))
     return out
+
+
+def _flags(o):
+    return o[-1] if isinstance(o[-1], dict) else {}
+
+
+def _t(k, frac, fs):
+    """the seconds value for sample position k + frac"""
+    return (k + frac) / fs
+
+
+def _chunk(base, ch, twod, kind):
+    """the array handed to append_data: values `base` per row (+100000*r), dtype / layout / write flag as `kind` says"""
+    data = base.copy() if not (ch > 1 or twod) else np.stack([base + 100000 * r for r in range(ch)])
+    if kind == 'int64':
+        data = data.astype(np.int64)
+    elif kind == 'float32':
+        data = data.astype(np.float32)
+    elif kind == 'view':
+        big = np.full(data.shape[:-1] + (2 * data.shape[-1] + 1,), -444.0)
+        big[..., 1::2] = data
+        data = big[..., 1::2]
+    elif kind == 'fortran':
+        data = np.asfortranarray(data)
+    elif kind == 'ro':
+        data.setflags(write=False)
+    return data
+
+
+def _bad_chunks(ch, twod):
+    """wrongly shaped chunks: append_data must refuse them (ValueError) and leave the buffer alone"""
+    if ch > 1 or twod:
+        bad = [np.ones(3), np.ones((ch + 1, 2)), np.ones((1, ch, 2)), np.float64(1.0), np.ones((ch + 2, ch))]
+        if ch > 1:
+            bad.append(np.ones((ch - 1, 2)))
+        return bad
+    return [np.ones((1, 3)), np.ones((2, 2)), np.float64(1.0), np.ones((1, 1, 2))]
 
 
 def impl(case):
     """Returns per channel the list of observable outputs, plus the effective op list in samples."""
     b = _mk(case)
-    fs = case['fs']
+    fs = _fs(case)
     ch = case['ch']
+    twod = bool(case.get('twod'))
     pos = 0   # values appended so far are 1..pos  (self-identifying)
     outs = [[] for _ in range(ch)]
     eff = []
+    idx = []          # (sample, buffer index) pairs from the direct translation queries (final sweep only)
+    held = []         # arrays the caller was handed and kept, with a private snapshot
+    notes = []        # harness-level observations that must hold (aliasing, twin conversions); a note makes the case fail
+    nread = [0]
 
     def emit(val):
         for r in range(ch):
             outs[r].append(val(r))
 
-    def rd(f):
+    def check_held(when):
+        for a, snap, what in held:
+            if not np.array_equal(a, snap, equal_nan=True):
+                notes.append(f'an array returned earlier by {what} changed {when}')
+        del held[:]
+
+    def rd(f, what):
         try:
             a = f()
-            emit(lambda r: ['D', _row(a, r, ch)])
         except IndexError:
             emit(lambda r: ['IE'])
+            return
         except ValueError:
             emit(lambda r: ['VE'])
+            return
+        emit(lambda r: ['D', _row(a, r, ch, twod)])
+        want_dt = DT[case.get('dtype')] or np.double
+        if a.dtype != want_dt:
+            notes.append(f'{what} returned dtype {a.dtype}, the buffer holds {np.dtype(want_dt)}')
+        nread[0] += 1
+        if a.size:
+            if nread[0] % 2 and a.flags.writeable:
+                a[...] = -777                      # the caller owns what it was handed
+            else:
+                held.append((a, a.copy(), what))   # ... or keeps it: later mutations must not reach it
+
+    def bounds_probe(ok, why):
+        """an observation encoded as a Bounds output: the real bounds when `ok`, an impossible pair otherwise"""
+        lb, ub = b.get_samples_lb(), b.get_samples_ub()
+        emit(lambda r: ['B', int(lb), int(ub)] if ok else ['B', int(lb), int(ub), why])
+        eff.append(['B'])
+
+    def ityp(v, fl):
+        return v if (v is None or not fl.get('np')) else (np.int64(v) if fl['np'] == 1 else np.int32(v))
 
     for o in case['ops']:
         k = o[0]
+        fl = _flags(o)
         if k == 'A':
             n = o[1]
             base = np.arange(pos + 1, pos + n + 1, dtype=float)
             vals = [int(v) for v in base]
             pos += n
-            data = base.copy() if ch == 1 else np.stack([base + 100000 * r for r in range(ch)])
-            if case.get('intdata') and (len(eff) % 2 == 0):
-                data = data.astype(np.int64)        # integer-typed chunks are legal input
+            kind = fl.get('dk') or ('int64' if (case.get('intdata') and (len(eff) % 2 == 0)) else None)
+            data = _chunk(base, ch, twod, kind)
             b.append_data(data)
-            data[...] = -555                        # the caller reuses its array: the buffer must have copied it
+            if data.flags.writeable:
+                data[...] = -555                    # the caller reuses its array: the buffer must have copied it
             eff.append(['A', vals])
             emit(lambda r: ['N'])
+            check_held('after a later append')
+        elif k == 'V':
+            bad = _bad_chunks(ch, twod)
+            data = bad[o[1] % len(bad)]
+            try:
+                b.append_data(data)
+                ok = False
+            except ValueError:
+                ok = True
+            bounds_probe(ok, 'wrongly-shaped-append-accepted')
         elif k == 'I':
             if o[2] == 's':
-                b.invalidate_samples(o[1])
+                b.invalidate_samples(ityp(o[1], fl))
                 eff.append(['I', o[1]])
             else:
-                t = o[1] / fs
+                t = _t(o[1], fl.get('f', 0), fs)
                 b.invalidate(t)
                 eff.append(['I', round(t * fs)])
             emit(lambda r: ['N'])
+            check_held('after a later invalidation')
         elif k == 'R':
-            size = o[1] / fs
+            size = _t(o[1], fl.get('f', 0), fs)
+            if fl.get('int') and float(fs) == 1.0 and not fl.get('f'):
+                size = int(o[1])
             s_ub = b.get_samples_ub()
             m = s_ub - round((-size + s_ub / fs) * fs)
             b.resize(size)
             eff.append(['R', m])
             emit(lambda r: ['N'])
+            check_held('after a later resize')
         elif k == 'S':      # get_range_samples(lb, ub), None allowed
-            lb, ub = o[1], o[2]
-            rd(lambda: b.get_range_samples(lb, ub))
-            eff.append(['S', lb, ub])
+            lb, ub = ityp(o[1], fl), ityp(o[2], fl)
+            if fl.get('kw') == 'lb':
+                rd(lambda: b.get_range_samples(lb=lb), 'get_range_samples')
+                ub = None
+            elif fl.get('kw') == 'ub':
+                rd(lambda: b.get_range_samples(ub=ub), 'get_range_samples')
+                lb = None
+            elif fl.get('kw') == 'none':
+                rd(lambda: b.get_range_samples(), 'get_range_samples')
+                lb = ub = None
+            else:
+                rd(lambda: b.get_range_samples(lb, ub), 'get_range_samples')
+            eff.append(['S', None if lb is None else int(lb), None if ub is None else int(ub)])
         elif k == 'T':      # get_range(lb_t, ub_t) in seconds
             lb, ub = o[1], o[2]
-            tl = None if lb is None else lb / fs
-            tu = None if ub is None else ub / fs
-            rd(lambda: b.get_range(tl, tu))
+            tl = None if lb is None else _t(lb, fl.get('fl', 0), fs)
+            tu = None if ub is None else _t(ub, fl.get('fu', 0), fs)
+            if fl.get('int0'):      # the int 0 is as good a time as 0.0
+                tl = 0 if (lb == 0 and not fl.get('fl')) else tl
+                tu = 0 if (ub == 0 and not fl.get('fu')) else tu
+            if fl.get('kw') == 'lb':
+                rd(lambda: b.get_range(lb=tl), 'get_range')
+                tu = ub = None
+            elif fl.get('kw') == 'ub':
+                rd(lambda: b.get_range(ub=tu), 'get_range')
+                tl = lb = None
+            elif fl.get('kw') == 'none':
+                rd(lambda: b.get_range(), 'get_range')
+                tl = tu = lb = ub = None
+            else:
+                rd(lambda: b.get_range(tl, tu), 'get_range')
             # get_range replaces None by the time bounds and converts back with round()
             el = round(b.get_time_lb() * fs) if lb is None else round(tl * fs)
             eu = round(b.get_time_ub() * fs) if ub is None else round(tu * fs)
             eff.append(['S', el, eu])
         elif k == 'F':      # get_range_filled(lb_t, ub_t, fill)
-            tl, tu = o[1] / fs, o[2] / fs
-            rd(lambda: b.get_range_filled(tl, tu, float(o[3])))
+            tl, tu = _t(o[1], fl.get('fl', 0), fs), _t(o[2], fl.get('fu', 0), fs)
+            f = int(o[3]) if fl.get('intfill') else float(o[3])
+            if fl.get('kw'):
+                rd(lambda: b.get_range_filled(lb=tl, ub=tu, fill_value=f), 'get_range_filled')
+            else:
+                rd(lambda: b.get_range_filled(tl, tu, f), 'get_range_filled')
             eff.append(['F', round(tl * fs), round(tu * fs), o[3]])
         elif k == 'L':      # get_latest(lb_t, ub_t, fill)
-            tl, tu = o[1] / fs, o[2] / fs
+            tl, tu = _t(o[1], fl.get('fl', 0), fs), _t(o[2], fl.get('fu', 0), fs)
             f = o[3]
+            fv = None if f is None else (int(f) if fl.get('intfill') else float(f))
             s_ub = b.get_samples_ub()
-            rd(lambda: b.get_latest(tl, tu, None if f is None else float(f)))
+            if fl.get('dub') and o[2] == 0 and not fl.get('fu'):
+                # ub left to its default (0); the fill by keyword or left to its default (None)
+                tu = 0
+                if f is None:
+                    rd(lambda: b.get_latest(tl), 'get_latest')
+                else:
+                    rd(lambda: b.get_latest(tl, fill_value=fv), 'get_latest')
+            else:
+                rd(lambda: b.get_latest(tl, tu, fv), 'get_latest')
             el = round((tl + s_ub / fs) * fs) - s_ub
             eu = round((tu + s_ub / fs) * fs) - s_ub
             eff.append(['L', el, eu, f])
+        elif k == 'X':      # the public conversions, called directly
+            t = _t(o[1], fl.get('f', 0), fs)
+            want = round(t * fs)
+            got = b.time_to_samples(t)
+            if got != want or isinstance(got, float):
+                notes.append(f'time_to_samples({t!r}) = {got!r}, round(t*fs) = {want}')
+            idx.append([int(want), int(b.time_to_index(t))])
+            idx.append([int(o[1]), int(b.samples_to_index(ityp(o[1], fl)))])
         elif k == 'B':
             lb, ub = b.get_samples_lb(), b.get_samples_ub()
             tlb, tub = b.get_time_lb(), b.get_time_ub()
@@ -133,7 +302,8 @@ def impl(case):
             eff.append(['B'])
         else:
             raise KeyError(k)
-    return {'cap': _eff_cap(case), 'eff': eff, 'outs': outs}
+    check_held('by the end of the history')
+    return {'cap': _eff_cap(case), 'eff': eff, 'outs': outs, 'idx': idx, 'notes': notes[:3]}
 
 
 def _op(o):
@@ -164,17 +334,19 @@ def _out(v):
         return 'OValueError'
     if v[0] == 'B' and len(v) == 3:
         return f'OBounds {zlit(v[1])} {zlit(v[2])}'
-    return 'OBounds 0 (-1)'   # time bounds inconsistent with sample bounds: never equal to a model output
+    return 'OBounds 0 (-1)'   # an observation that failed (see bounds_probe): never equal to a model output
 
 
 def term(case, res):
     ops = listlit([_op(o) for o in res['eff']])
-    ts = []
-    for r in range(case['ch']):
-        ts.append(f"check_run {zlit(res['cap'])} {zlit(case.get('bfill', FILL))} {ops} {listlit([_out(v) for v in res['outs'][r]])}")
-    # also evaluate the refinement statement of Props/C14.v on this very history (a test of the theorem, not its proof)
-    ts.append(f"check_spec {zlit(res['cap'])} {zlit(case.get('bfill', FILL))} {ops}")
-    return ' && '.join(f'({t})' for t in ts)
+    gots = listlit([listlit([_out(v) for v in res['outs'][r]]) for r in range(case['ch'])])
+    idx = listlit([f'({zlit(i)}, {zlit(j)})' for i, j in res['idx']])
+    # check_case = model agrees on every channel && the refinement statement of Props/C14.v evaluated on this very history
+    # (a test of the theorem, not its proof) && the index translations agree with the model and with the abstract spec
+    t = f"check_case {zlit(res['cap'])} {zlit(_mfill(case))} {ops} {gots} {idx}"
+    if res['notes']:
+        t += ' && false'
+    return t
 
 
 def nontrivial(case, res):
@@ -184,6 +356,8 @@ def nontrivial(case, res):
 
 def oracle(case, res):
     """Abstract spec: logical stream + retained-window start; judged on the implementation's outputs only."""
+    if res['notes']:
+        return res['notes'][0]
     for r in range(case['ch']):
         cap = res['cap']
         stream, lo = [], 0
@@ -201,6 +375,8 @@ def oracle(case, res):
                 cap = o[1]
                 lo = max(lo, len(stream) - cap)
             elif k == 'B':
+                if len(got) > 3:
+                    return f'{got[3]} after {[e for e in res["eff"][:idx] if e[0] in "AIR"]}'
                 if got[1:] != [lo, len(stream)]:
                     return f'bounds {got[1:]} but the retained window of the logical stream is [{lo}, {len(stream)}) after {[e for e in res["eff"][:idx] if e[0] in "AIR"]}'
                 if not got[1] <= got[2]:
@@ -226,6 +402,10 @@ def oracle(case, res):
                     want = ['D', [stream[i] if lo <= i < len(stream) else f for i in range(a, b)]]
                 if got != want:
                     return f'filled/latest read [{a},{b}) fill={f} returned {got}, expected {want} (window [{lo},{len(stream)})) after {[e for e in res["eff"][:idx] if e[0] in "AIR"]}'
+        # the direct index translations (asked after the whole history): right-aligned store of `cap` slots
+        for i, j in res['idx']:
+            if j != i - len(stream) + cap:
+                return f'samples_to_index/time_to_index: sample {i} -> index {j}, but the newest of {len(stream)} samples sits at the right end of {cap} slots'
     return None
 
 
@@ -246,16 +426,55 @@ class _Spec:
             self.lo = max(self.lo, self.n - self.cap)
 
 
-def _read_sweep(sp, rng, full=False):
+FRACS = [0.25, 0.5, 0.75, -0.25, -0.5, 0.4999, 0.5001]
+
+
+def _variants(ops, sp, rng):
+    """other legal ways of making the same kind of request: off-grid times, NumPy integers, keyword / default forms"""
+    lo, n = sp.lo, sp.n
+    out = []
+    for o in ops:
+        k = o[0]
+        u = rng.random()
+        if u < 0.55 or isinstance(o[-1], dict):
+            out.append(o)
+            continue
+        o = list(o)
+        if k == 'S' and o[1] is not None and o[2] is not None:
+            o.append({'np': rng.choice([1, 2])})
+        elif k == 'T' and o[1] is not None and o[2] is not None:
+            o.append({'fl': rng.choice(FRACS + [0]), 'fu': rng.choice(FRACS + [0]), 'int0': int(rng.random() < 0.5)})
+        elif k == 'F':
+            o.append({'fl': rng.choice(FRACS + [0]), 'fu': rng.choice(FRACS + [0]), 'kw': int(rng.random() < 0.3),
+                      'intfill': int(rng.random() < 0.3)})
+        elif k == 'L':
+            if o[2] == 0 and rng.random() < 0.5:
+                o.append({'dub': 1, 'fl': rng.choice(FRACS + [0, 0])})
+            else:
+                o.append({'fl': rng.choice(FRACS + [0]), 'fu': rng.choice(FRACS + [0]), 'intfill': int(rng.random() < 0.3)})
+        out.append(o)
+    return out
+
+
+def _read_sweep(sp, rng, full=False, final=False):
     lo, n = sp.lo, sp.n
     ops = [['B'], ['S', None, None], ['S', lo, n], ['S', lo - 1, n], ['S', lo, n + 1], ['T', lo, n], ['T', None, n],
            ['F', lo - 2, n + 2, 7], ['F', lo - 3, lo - 1, 7], ['F', n + 1, n + 3, 7], ['F', lo, n, 7],
            ['L', -(n - lo), 0, None], ['L', -(n - lo) - 1, 0, 7], ['L', -(n - lo) - 1, 0, None]]
+    # 0 is a sample / a time like any other, not "no bound given"; the keyword and default forms of the optional bounds
+    extra = [['S', 0, n], ['S', lo, 0], ['T', 0, n, {'int0': 1}], ['T', 0, n], ['T', lo, 0, {'int0': 1}], ['S', 0, 0],
+             ['S', lo, None, {'kw': 'lb'}], ['S', None, n, {'kw': 'ub'}], ['S', None, None, {'kw': 'none'}],
+             ['T', lo, None, {'kw': 'lb'}], ['T', None, n, {'kw': 'ub'}], ['T', None, None, {'kw': 'none'}],
+             ['T', lo + 1, None, {'kw': 'lb'}], ['T', None, max(n - 1, 0), {'kw': 'ub'}],
+             ['S', lo + 1, None], ['S', None, n - 1 if n > lo else n], ['T', lo, None], ['T', None, None],
+             ['L', -(n - lo), 0, None, {'dub': 1}], ['L', -(n - lo) - 1, 0, 0, {'dub': 1}], ['L', -1, 0, 7, {'dub': 1}],
+             ['V', rng.randint(0, 9)]]
     if full:
         for a in range(lo - 2, n + 3):
             for b in range(a, n + 3):
                 ops.append(['S', a, b])
                 ops.append(['F', a, b, 7])
+        ops += extra
     else:
         for _ in range(4):
             a = rng.randint(lo - 2, n + 2)
@@ -265,9 +484,15 @@ def _read_sweep(sp, rng, full=False):
         a = rng.randint(lo, max(lo, n))
         ops.append(['S', a, a])
         ops.append(['S', a + 1, a - 1] if rng.random() < 0.3 else ['S', a, min(n, a + 1)])
+        ops += rng.sample(extra, 7)
     if rng.random() < 0.5:
         # a fill value of 0 is as legal as any other
-        ops = [([o[0], o[1], o[2], 0] if (o[0] in 'FL' and o[3] == 7) else o) for o in ops]
+        ops = [([o[0], o[1], o[2], 0] + o[4:] if (o[0] in 'FL' and o[3] == 7) else o) for o in ops]
+    ops = _variants(ops, sp, rng)
+    if final:
+        # direct conversions: only after the last mutation (the model answers them for the final state)
+        for i in sorted({lo, n, 0, (lo + n) // 2, n + 3}):
+            ops.append(['X', i, {'f': rng.choice(FRACS + [0, 0]), 'np': rng.choice([0, 1])}])
     return ops
 
 
@@ -299,15 +524,48 @@ def _exhaustive(cap, depth, rng, full):
         sp = _Spec(cap)
         for o in hist:
             sp.apply(o)
-        yield hist + _read_sweep(sp, rng, full)
+        yield [_mut_variant(o, rng, 0.15) for o in hist] + _read_sweep(sp, rng, full, final=True)
+
+
+def _mut_variant(o, rng, p):
+    """the same mutation requested another legal way (twin method, off-grid time, NumPy integer, other chunk kind)"""
+    if rng.random() >= p:
+        return o
+    o = list(o)
+    if o[0] == 'A':
+        o.append({'dk': rng.choice(['int64', 'float32', 'view', 'fortran', 'ro'])})
+    elif o[0] == 'I':
+        if rng.random() < 0.5:
+            o[2] = 't'
+            o.append({'f': rng.choice(FRACS if o[1] > 0 else [0.25, 0.5, 0.75, 0.4999, 0.5001])})
+        else:
+            o[2] = 's'
+            o.append({'np': rng.choice([1, 2])})
+    elif o[0] == 'R':
+        o.append({'f': rng.choice([0.25, 0.5, 0.75, -0.25, 0.4999, 0.5001]), 'int': 0} if rng.random() < 0.7 else {'int': 1})
+    return o
+
+
+def _config(rng, fs=None):
+    """a constructor configuration (every keyword of SignalBuffer takes default and non-default values)"""
+    cfg = {'fs': fs if fs is not None else rng.choice([1.0, 1000.0, 195312.5]),
+           'ch': rng.choice([1, 1, 1, 2, 2, 3]),
+           'fskind': rng.choice(['float', 'float', 'int', 'np64']),
+           'sizefrac': rng.choice([0, 0, 0.5, 0.999, 0.25, 0.001]),
+           'intsize': rng.random() < 0.3, 'nckw': rng.random() < 0.3,
+           'intdata': rng.random() < 0.3}
+    if cfg['ch'] == 1:
+        cfg['twod'] = rng.random() < 0.25
+    cfg['dtype'] = rng.choice([None, None, None, 'float32', 'int64', 'int32'])
+    cfg['bfill'] = rng.choice([FILL, 0] if cfg['dtype'] in ('int64', 'int32') else [FILL, 0, None])
+    return cfg
 
 
 def cases(tier, rng):
     quick = tier == 'quick'
     for cap in ([2, 3] if quick else [1, 2, 3, 4]):
         for hist in _exhaustive(cap, 3 if quick else 4, rng, full=False):
-            yield {'cap': cap, 'fs': 1.0, 'ch': 1, 'ops': hist, 'bfill': rng.choice([FILL, 0]), 'intdata': rng.random() < 0.3}
-    fss = [1.0, 1000.0, 195312.5]
+            yield dict(_config(rng, fs=1.0), cap=cap, ops=hist)
     for _ in range(400 if quick else 6000):
         cap = rng.randint(1, 12)
         sp = _Spec(cap)
@@ -322,12 +580,24 @@ def cases(tier, rng):
                 o = ['R', rng.randint(1, 2 * sp.cap + 2)]
             else:
                 o = rng.choice(_read_sweep(sp, rng))
+            o = _mut_variant(o, rng, 0.3) if o[0] in 'AIR' else o
             ops.append(o)
             sp.apply(o)
-        ops += _read_sweep(sp, rng, full=(sp.n - sp.lo) <= 5)
-        yield {'cap': cap, 'fs': rng.choice(fss), 'ch': rng.choice([1, 1, 2]), 'ops': ops,
-               'bfill': rng.choice([FILL, 0]), 'intdata': rng.random() < 0.3}
+        ops += _read_sweep(sp, rng, full=(sp.n - sp.lo) <= 5, final=True)
+        yield dict(_config(rng), cap=cap, ops=ops)
 
 
 def key(case, res):
     return None
+
+
+def distribution(cases, results):
+    d = {}
+    for c in cases:
+        for f in ('fs', 'fskind', 'sizefrac', 'dtype', 'bfill', 'ch', 'twod'):
+            kk = f'{f}={c.get(f)}'
+            d[kk] = d.get(kk, 0) + 1
+        for o in c['ops']:
+            kk = 'op ' + o[0] + ''.join(f' {a}' for a in sorted(_flags(o)) if _flags(o)[a] not in (0, None))
+            d[kk] = d.get(kk, 0) + 1
+    return d
